@@ -1170,9 +1170,14 @@ fn diff_batch(exe: &std::path::Path, name: &str, srcs: &[String]) -> Vec<Option<
 }
 
 /// greedy deletion of segments, then of characters, while a mismatch of the same kind remains
-fn shrink(exe: &std::path::Path, name: &str, src: &str, kind: &str, deadline: Instant) -> String {
+/// `keep`: the set the template belongs to when that set registers — candidates that no longer
+/// register (a renamed filter, a lost helper) are then not taken, so the oracles can still run
+fn shrink(exe: &std::path::Path, name: &str, src: &str, kind: &str, deadline: Instant, keep: Option<&[(String, String)]>) -> String {
     let mut best = src.to_string();
     let same = |d: &Option<Diff>| d.as_ref().is_some_and(|d| stage_kind(&d.stage) == kind);
+    let pick = |ds: &[Option<Diff>], cands: &[String]| -> Option<usize> {
+        ds.iter().enumerate().position(|(i, d)| same(d) && keep.is_none_or(|set| build(&with_source(set, name, &cands[i])).is_ok()))
+    };
     // segments
     loop {
         if Instant::now() > deadline {
@@ -1196,7 +1201,7 @@ fn shrink(exe: &std::path::Path, name: &str, src: &str, kind: &str, deadline: In
         cands.retain(|c| c.len() < best.len());
         cands.truncate(400);
         let ds = diff_batch(exe, name, &cands);
-        match ds.iter().position(same) {
+        match pick(&ds, &cands) {
             Some(i) => best = cands[i].clone(),
             None => break,
         }
@@ -1213,7 +1218,7 @@ fn shrink(exe: &std::path::Path, name: &str, src: &str, kind: &str, deadline: In
             }
             let cands: Vec<String> = (0..=chars.len() - w).map(|i| chars[..i].iter().chain(chars[i + w..].iter()).collect()).collect();
             let ds = diff_batch(exe, name, &cands);
-            match ds.iter().position(same) {
+            match pick(&ds, &cands) {
                 Some(i) => best = cands[i].clone(),
                 None => break,
             }
@@ -1286,7 +1291,9 @@ fn neighbours(rng: &mut Rng, name: &str, src: &str, n: usize) -> Vec<String> {
 fn investigate(report: &mut Report, exe: &std::path::Path, rng: &mut Rng, env: &Env, set: &TSet, name: &str, src: &str, first: &Diff, id: usize) {
     let kind = stage_kind(&first.stage);
     let t0 = Instant::now();
-    let small = if kind == "compile:driver" { src.to_string() } else { shrink(exe, name, src, &kind, t0 + Duration::from_secs(env.budget(4, 20) as u64)) };
+    let registers = build(&set.templates).is_ok();
+    let keep: Option<&[(String, String)]> = if registers { Some(&set.templates) } else { None };
+    let small = if kind == "compile:driver" { src.to_string() } else { shrink(exe, name, src, &kind, t0 + Duration::from_secs(env.budget(4, 20) as u64), keep) };
     let d = diff_batch(exe, name, &[small.clone()]).into_iter().next().flatten();
     let (small, d) = match d {
         Some(d) if stage_kind(&d.stage) == kind => (small, d),
@@ -1324,12 +1331,56 @@ fn investigate(report: &mut Report, exe: &std::path::Path, rng: &mut Rng, env: &
         "rerun": format!("harness/target/release/{BIN} --replay <this file>"),
     });
     if let Some((i, o)) = outs.iter().enumerate().find(|(_, o)| !o.problems.is_empty()) {
-        let p = &o.problems[0];
+        let mut p = o.problems[0].clone();
+        let mut failing_set = items[i].0.clone();
+        if i != 0 {
+            // the failure is not on the shrunk case: shrink this one while the same oracle still fails
+            let okind = p["oracle"].as_str().unwrap_or("").to_string();
+            let one_ctx: Vec<Vec<String>> = match p["ctx"].as_array() {
+                Some(c) => vec![c.iter().map(|x| x.as_str().unwrap_or("-").to_string()).collect()],
+                None => ctxs.clone(),
+            };
+            let mut best = failing_set.iter().rfind(|(n, _)| n == name).map(|t| t.1.clone()).unwrap_or_default();
+            let deadline = Instant::now() + Duration::from_secs(env.budget(8, 40) as u64);
+            let mut round = 0;
+            while Instant::now() < deadline {
+                round += 1;
+                let segs = segments(&best);
+                if segs.len() <= 1 {
+                    break;
+                }
+                let mut cands: Vec<String> = Vec::new();
+                for k in 0..segs.len() {
+                    if let Some(j) = matching_close(&segs, k) {
+                        cands.push(segs[..k].concat() + &segs[j + 1..].concat());
+                        cands.push(segs[..k].concat() + &segs[k + 1..j].concat() + &segs[j + 1..].concat());
+                    }
+                }
+                for k in 0..segs.len() {
+                    cands.push(segs[..k].concat() + &segs[k + 1..].concat());
+                }
+                cands.retain(|c| c.len() < best.len() && matches!(real_side(name, c), RealOut::Compiled(_)));
+                cands.truncate(120);
+                if cands.is_empty() {
+                    break;
+                }
+                let its: Vec<(Vec<(String, String)>, String)> = cands.iter().map(|c| (with_source(&failing_set, name, c), name.to_string())).collect();
+                let os = run_oracle(id + 100 * round, &its, &one_ctx, Duration::from_secs(60));
+                match os.iter().position(|o| o.problems.iter().any(|q| q["oracle"].as_str().unwrap_or("") == okind)) {
+                    Some(k) => {
+                        best = cands[k].clone();
+                        failing_set = its[k].0.clone();
+                        p = os[k].problems.iter().find(|q| q["oracle"].as_str().unwrap_or("") == okind).cloned().unwrap_or(p);
+                    }
+                    None => break,
+                }
+            }
+        }
         let mut replay = base.clone();
-        replay["templates"] = serde_json::json!(items[i].0);
-        replay["source"] = serde_json::json!(items[i].0.iter().rfind(|(n, _)| n == name).map(|t| t.1.clone()));
+        replay["templates"] = serde_json::json!(failing_set);
+        replay["source"] = serde_json::json!(failing_set.iter().rfind(|(n, _)| n == name).map(|t| t.1.clone()));
         replay["oracle"] = p.clone();
-        replay["where"] = serde_json::json!(match i { 0 => "the shrunk case", 1 => "the original case", _ => "a neighbour of the shrunk case" });
+        replay["where"] = serde_json::json!(match i { 0 => "the shrunk case", 1 => "the original case (shrunk again while the oracle still fails)", _ => "a neighbour of the shrunk case (shrunk again while the oracle still fails)" });
         report.violation(
             "property",
             format!("`{}` ({name}): {} [found while following the compiler stage mismatch {}]", clip(replay["source"].as_str().unwrap_or(""), 300), p["problem"].as_str().unwrap_or("?"), d.stage),
